@@ -79,9 +79,10 @@ def _case(args):
     lx = rng.choice(['basic', 'contextual'])
     use_bytes = rng.random() < 0.25
     starts = re.findall(r'^(s[0-9]): ', g, re.M) or ['start']
+    gflags = re.I if rng.random() < 0.2 else 0        # global regexp flags change what every terminal — and the search for a snippet's start — matches
     try:
         with guarded(5):
-            p = Lark(g, parser='lalr', lexer=lx, use_bytes=use_bytes, propagate_positions=True, start=starts)
+            p = Lark(g, parser='lalr', lexer=lx, use_bytes=use_bytes, propagate_positions=True, start=starts, g_regex_flags=gflags)
     except (GrammarError, LarkError):
         return {'nobuild': True}
     recs = []
@@ -92,11 +93,13 @@ def _case(args):
             text = ''.join(rng.choice('abcd  x') for _ in range(rng.randint(0, 10)))
         else:
             text = ''.join(rng.choice(['x', 'ab', 'let', '1', '42', '=', ';', ',', '.', '(', ')', ':', '+', ' ', ' ', '\n', '#c\n', '?']) for _ in range(rng.randint(0, 12)))
+        if gflags:
+            text = ''.join(ch.upper() if rng.random() < 0.4 else ch for ch in text)
         data = text.encode('latin-1') if use_bytes else text
         lo = rng.randint(0, len(text)) if rng.random() < 0.35 else 0
         hi = rng.randint(lo, len(text)) if rng.random() < 0.35 else len(text)
         ts = TextSlice(data, lo, hi)
-        rec = {'text': text, 'lo': lo, 'hi': hi, 'lexer': lx, 'bytes': use_bytes}
+        rec = {'text': text, 'lo': lo, 'hi': hi, 'lexer': lx, 'bytes': use_bytes, 'g_regex_flags': int(gflags)}
         with guarded(10):
             st_ = rng.choice(starts)            # (several start rules: one instance scanned with different start= values in sequence)
             rec['start'] = st_
